@@ -224,6 +224,16 @@ def handle (st : St) (fs : List String) : St × String :=
                       | none => (st, "none"))
       | none => (st, "none")
     | _, _ => (st, "bad-op")
+  | ["json", cps] =>
+    -- code points as hex numbers separated by '.', "-" = empty; answer: units | code points read back
+    let xs : Option (List Nat) := if cps = "-" then some [] else
+      (cps.splitOn ".").foldr (fun p acc => match acc, hexNat p.toList with
+        | some r, some n => some (n :: r) | _, _ => none) (some [])
+    match xs with
+    | some xs =>
+      let showNs (l : List Nat) : String := if l.isEmpty then "-" else ".".intercalate (l.map natHex)
+      (st, showNs (jsonEscape xs) ++ "|" ++ showNs (jsonUnescape (jsonEscape xs)))
+    | none => (st, "bad-op")
   | ["mangle", cmd] =>
     match decStr cmd with
     | some c => (st, encStr (mangle driverIsWord c))
